@@ -23,10 +23,11 @@ type Env struct {
 	loopPre    *State
 	loopPreEnv *Env
 	at         *ssa.BasicBlock // where the expression is evaluated (resolves source names defined more than once)
+	cells      map[string]*Val // names of captured variables -> address of the cell (loaded on use)
 }
 
 func (e *Env) child() *Env {
-	n := &Env{vars: map[string]*Val{}, pkg: e.pkg, depth: e.depth + 1, loopPre: e.loopPre, loopPreEnv: e.loopPreEnv, at: e.at}
+	n := &Env{vars: map[string]*Val{}, pkg: e.pkg, depth: e.depth + 1, loopPre: e.loopPre, loopPreEnv: e.loopPreEnv, at: e.at, cells: e.cells}
 	for k, v := range e.vars {
 		n.vars[k] = v
 	}
@@ -146,6 +147,15 @@ func (fr *Frame) eval(e *Expr, env *Env, st *State, old *State) *Val {
 				return sv(fr.u.ghostOf(st, v.Heap), v.Srt)
 			}
 			return v
+		}
+		cell := env.cells[e.name]
+		if cell == nil && env.cells == nil {
+			cell = fr.ctCells[e.name]
+		}
+		if cell != nil && cell.K == vTerm {
+			a := u.addrOfPtr(cell)
+			el := cell.Ty.Underlying().(*types.Pointer).Elem()
+			return fr.loadedOld(term(u.loadAddr(st, a), el), st)
 		}
 		if sv0, ok := fr.nameVals[e.name]; ok {
 			if v, ok := fr.vals[sv0]; ok && (v.K == vTerm || v.K == vFunc) {
@@ -520,6 +530,27 @@ func (fr *Frame) evalCall(e *Expr, env *Env, st *State, old *State) *Val {
 			evalFail("atloop(e) is only meaningful in a loop invariant")
 		}
 		return fr.eval(e.args[0], env.loopPreEnv, env.loopPre, old)
+	case "closed":
+		// closed(ch): the channel has been closed
+		x := arg(0)
+		u.ghostSort["closed"] = "(Array Ref Bool)"
+		return term(fmt.Sprintf("(select %s %s)", u.ghostOf(st, "closed"), x.T), B)
+	case "sends":
+		// sends(ch): number of sends on the channel so far
+		x := arg(0)
+		u.ghostSort["sends"] = "(Array Ref Int)"
+		return term(fmt.Sprintf("(select %s %s)", u.ghostOf(st, "sends"), x.T), types.Typ[types.Int])
+	case "lastsent":
+		// lastsent(ch): the value of the last send on the channel
+		x := arg(0)
+		ct, ok := x.Ty.Underlying().(*types.Chan)
+		if !ok {
+			evalFail("lastsent needs a channel")
+		}
+		srt := w.sortOf(ct.Elem())
+		lk := "lastsent:" + sortShort(srt)
+		u.ghostSort[lk] = fmt.Sprintf("(Array Ref %s)", srt)
+		return term(fmt.Sprintf("(select %s %s)", u.ghostOf(st, lk), x.T), ct.Elem())
 	case "written":
 		// written(w): ghost text written so far to the writer w through fmt.Fprintf / fmt.Fprint
 		x := arg(0)
